@@ -1,4 +1,4 @@
----- MODULE MC_C02_Liq_plr0_21938 ----
+---- MODULE MC_C03_Liq_plr0_21938 ----
 EXTENDS System
 MC_InitW == [allow |-> [drv |-> 0, liq |-> 1000000000, newowner |-> 0, owner |-> 0, pauser |-> 0, sfx |-> 1000000000, stranger |-> 0, tr1 |-> 1000000000, tr2 |-> 1000000000, tr3 |-> 1000000000], bal |-> [drv |-> 0, engine |-> 0, feed |-> 0, fpool |-> 0, ifund |-> 500000, liq |-> 500000, newowner |-> 0, owner |-> 0, pauser |-> 0, sfx |-> 500000, stranger |-> 0, token |-> 0, tr1 |-> 500000, tr2 |-> 500000, tr3 |-> 500000, vamm1 |-> 0, vamm2 |-> 0, vamm3 |-> 0, vamm4 |-> 0], blk |-> [h |-> 1000, t |-> 100000], eng |-> [cfg |-> [D |-> 100, fpool |-> "fpool", ifund |-> "ifund", imr |-> 5, liqfee |-> 5, mmr |-> 5, native |-> FALSE, owner |-> "owner", plr |-> 0], npos |-> 0, pauser |-> "owner", pos |-> [vamm1 |-> [liq |-> [blk |-> 0, dir |-> "add", exists |-> FALSE, lupf |-> 0, margin |-> 0, notional |-> 0, size |-> 0], tr1 |-> [blk |-> 0, dir |-> "add", exists |-> FALSE, lupf |-> 0, margin |-> 0, notional |-> 0, size |-> 0], tr2 |-> [blk |-> 0, dir |-> "add", exists |-> FALSE, lupf |-> 0, margin |-> 0, notional |-> 0, size |-> 0], tr3 |-> [blk |-> 0, dir |-> "add", exists |-> FALSE, lupf |-> 0, margin |-> 0, notional |-> 0, size |-> 0]]], pos_extra |-> <<>>, st |-> [bad_debt |-> 0, oi |-> 0, paused |-> FALSE], tmp |-> [funds |-> FALSE, liq |-> FALSE, swap |-> FALSE], vmap |-> [vamm1 |-> [cpf |-> <<>>, restr |-> 0]], whitelist |-> <<>>], feed |-> [kind |-> "mock", owner |-> "owner", price |-> 1000, rounds |-> [ADA |-> <<>>, BTC |-> <<>>, ETH |-> <<>>, SOL |-> <<>>]], fpool |-> [owner |-> "owner", tokens |-> <<"token">>], ifund |-> [engine |-> "engine", has_list |-> TRUE, owner |-> "owner", vamms |-> <<"vamm1">>], vamm |-> [vamm1 |-> [cfg |-> [D |-> 100, base |-> "ETH", buffer |-> 1800, engine |-> "engine", feed |-> "feed", fluct |-> 0, hcap |-> 0, ifund |-> "ifund", oicap |-> 0, period |-> 3600, spread |-> 0, toll |-> 0, twapint |-> 3600], nsnaps |-> 1, owner |-> "owner", snaps |-> <<[h |-> 1000, t |-> 100000, x |-> 100000, y |-> 10000]>>, st |-> [next |-> 103600, open |-> TRUE, rate |-> 0, total |-> 0, x |-> 100000, y |-> 10000]]]]
 MC_Tx == {[c |-> "engine", m |-> "open_position", s |-> "tr1", a |-> [vamm |-> "vamm1", side |-> "buy", margin |-> 2500, leverage |-> 1000, limit |-> 0], funds |-> 0],
